@@ -27,9 +27,9 @@ ASSUMPTIONS = [
     "limits: only compared when the exact reference sequence has numerically converged (|c(2K)-c(K)| < 1e-12 scale); otherwise inconclusive",
     "reference engine and laws as in C01",
 ]
-TIMEOUT = {"quick": 35, "thorough": 150}
-DEADLINE = {"quick": 70, "thorough": 1500}
-MIN_DECIDING = {"quick": 25, "thorough": 200}
+TIMEOUT = {"quick": 20, "thorough": 150}
+DEADLINE = {"quick": 85, "thorough": 1500}
+MIN_DECIDING = {"quick": 15, "thorough": 200}
 NCASES = {"quick": 110, "thorough": 2000}
 
 
